@@ -203,6 +203,9 @@ func (fx *Fx) lvalue(st *State, e ast.Expr) *Loc {
 		fx.unsup(e, "index expression on %s as location", xt)
 	case *ast.StarExpr:
 		p := fx.eval(st, e.X)
+		if il, ok := fx.c.interior[p.T]; ok {
+			return il
+		}
 		fx.nilCheck(st, p.T, e, "nil-deref")
 		pt := types.Unalias(p.GT).Underlying().(*types.Pointer)
 		if s, named, _ := structOf(pt.Elem()); s != nil && !opaqueNamed(named) {
